@@ -478,6 +478,8 @@ func oneA(c *vf.Ctx, t caseA, g *keygen, idx int) {
 		}
 		if !c.Thorough {
 			wrong = append(wrong[:2], wrong[3:]...) // quick: drop one of the variants
+		} else if len(t.comment) >= 2 && len(t.comment) <= 15 {
+			wrong = wrong[:1] // padding-length sweep: one wrong passphrase is enough
 		}
 		for wi, w := range wrong {
 			fns := []func() (any, error){func() (any, error) { return ssh.ParseRawPrivateKeyWithPassphrase(pemText, w) }}
@@ -781,7 +783,8 @@ func partB1enc(c *vf.Ctx, keys []tkey) {
 						if ci%2 == 1 {
 							p = pass40
 						}
-						if c.Thorough && r == 64 && ci > 1 {
+						// thorough: every salt length and padding length at 1 round (cheap), two comments otherwise
+						if c.Thorough && r != 1 && (ci > 1 || sl != 16) {
 							continue
 						}
 						cases = append(cases, cs{k, cipher, r, sl, cm, p})
@@ -799,6 +802,9 @@ func partB1enc(c *vf.Ctx, keys []tkey) {
 			}
 		}
 	}
+	if n := len(cases); c.Thorough && n > 1 {
+		cases[0], cases[n-1] = cases[n-1], cases[0] // start the long case first
+	}
 	c.Set("reference_written_encrypted_files", len(cases))
 	c.ParallelFor(len(cases), func(i int) {
 		t := cases[i]
@@ -810,6 +816,18 @@ func partB1enc(c *vf.Ctx, keys []tkey) {
 		}
 		text := kv.Armor(f.Bytes())
 		wantPub := t.k.k.Public().Blob()
+		if t.rounds > 1000 {
+			// the most expensive accepted round count: one parse only
+			got, err := ssh.ParseRawPrivateKeyWithPassphrase(text, t.pass)
+			c.Eval(1)
+			if err != nil {
+				c.Violation("encrypted file from the reference encoder: rejected", map[string]any{"case": det, "err": err.Error()})
+			} else if e := sameKey(got, t.k.k); e != nil {
+				c.Violation("encrypted file from the reference encoder: parsed to a different key", map[string]any{"case": det, "err": e.Error()})
+			}
+			c.Nontrivial(fmt.Sprintf("B1enc/%s/%s/r%d", t.k.name, t.cipher, t.rounds))
+			return
+		}
 		goParseBoth(c, "encrypted file from the reference encoder", det, text, t.pass, t.k.k, wantPub, c.Bytes("msgB1e", i, 20))
 		wrongs := [][]byte{append(append([]byte{}, t.pass...), '!'), []byte("y")}
 		if !c.Thorough {
